@@ -238,6 +238,17 @@ func genUciDet(o *Out, r *rand.Rand, thorough bool) {
 		o.Count("ucidet:automatic-draw-root")
 		o.Nontrivial(l)
 	}
+	// two set-ups in a row whose records differ only in the case of letters (in a FEN that is the colour of the men): the second
+	// is a different game, not a repetition or an extension of the first
+	for _, l := range []string{
+		"uci plain 0 ; > position fen 4k3/8/8/8/8/8/8/4K3 w - - 0 1 ;; sync ;; state ;; > position fen 4K3/8/8/8/8/8/8/4k3 w - - 0 1 ;; sync ;; state",
+		"uci plain 0 ; > position fen 4k1n1/8/8/8/8/8/8/1N2K3 w - - 0 1 moves b1c3 ;; sync ;; state ;; > position fen 4K1N1/8/8/8/8/8/8/1n2k3 w - - 0 1 moves g8f6 ;; sync ;; state ;; > position fen 4K1N1/8/8/8/8/8/8/1n2k3 w - - 0 1 moves g8f6 b1c3 ;; sync ;; state",
+		"uci plain 0 ; > position fen r3k3/8/8/8/8/8/8/4K2R w - - 3 9 ;; sync ;; state ;; > position fen R3K3/8/8/8/8/8/8/4k2r w - - 3 9 moves a8a7 ;; sync ;; state ;; > go depth 1 ;; wait-bestmove ;; state",
+	} {
+		o.do(l)
+		o.Count("ucidet:case-twins")
+		o.Nontrivial(l)
+	}
 }
 
 // ---- interleavings (checked by a monitor over the event trace) ------------------------------------
@@ -494,6 +505,26 @@ func raceScripts(r *rand.Rand, n int) []raceScript {
 			"> setoption name Noise value 30", "> go", "wait-bestmove 9000", "quiet 100", "> setoption name Depth value -1", "> setoption name Depth", "> setoption", "sync", "alive"}, "options"},
 		raceScript{"sargon", []string{"> setoption name OwnBook value false", "> position startpos", "> go depth 1", "wait-bestmove 20000", "quiet 100",
 			"> setoption name OwnBook value true", "> go", "wait-bestmove 20000", "quiet 100", "> ponderhit", "> register later", "sync", "alive"}, "options"})
+	// options an engine never advertised (a book switch sent to an engine without a book, unknown names) must be survived
+	for _, kind := range []string{"plain", "morlock", "turochamp"} {
+		ret = append(ret, raceScript{kind, []string{"> setoption name OwnBook value true", "sync", "> position startpos", "> go depth 1", "wait-bestmove 20000", "quiet 100",
+			"> setoption name OwnBook value false", "> setoption name Ponder value true", "> setoption name UCI_AnalyseMode value true", "> setoption name MultiPV value 4", "sync",
+			"> position startpos moves e2e4", "> go depth 1", "wait-bestmove 20000", "quiet 100", "alive"}, "options not advertised"})
+	}
+	// an endless search that ends without a stop (superseded by a position, a new game, another go) leaves nothing behind:
+	// the finite search after it ends by itself and is answered
+	for i, sup := range []string{"> position startpos moves e2e4", "> ucinewgame", "> go infinite", "> position startpos"} {
+		kind := []string{"plain", "morlock", "plain", "turochamp"}[i]
+		steps := []string{"> position startpos", "> go infinite", fmt.Sprintf("sleep %d", 20+r.Intn(80)), sup, "sync"}
+		if sup == "> go infinite" {
+			steps = append(steps, "sleep 30", "> position startpos moves d2d4", "sync")
+		}
+		if sup == "> ucinewgame" {
+			steps = append(steps, "> position startpos moves g1f3")
+		}
+		steps = append(steps, "quiet 300", "> go depth 2", "wait-bestmove 20000", "quiet 200", "> go depth 1", "wait-bestmove 20000", "sync", "alive")
+		ret = append(ret, raceScript{kind, steps, "endless search superseded"})
+	}
 	// always: a GUI that reads slowly while an open-ended search of a position without moves reports iteration after iteration
 	// (every info channel fills up); quit / end of input must still shut the driver down
 	for _, end := range []string{"> quit", "close"} {
